@@ -3,6 +3,7 @@ package main
 import (
 	"fmt"
 	"math/big"
+	"math/rand"
 )
 
 func init() { register("C10", runC10, replayEvents("C10", c10Oracle)) }
@@ -133,6 +134,37 @@ func runC10(c *Ctx) {
 		c.Count(w, true)
 		c.c10Judge(es, rej)
 	}
+	// record instances with one value too many / one too few, for every record of a generated
+	// document (zero-field record types included), and the smallest such documents directly
+	for _, n := range []int{0, 1, 2, 3} {
+		for _, have := range []int{0, 1, 2, 3, 4} {
+			es := []Ev{{K: "bd"}, {K: "v", N: 0}, {K: "rt", Data: []byte("r")}}
+			for i := 0; i < n; i++ {
+				es = append(es, Ev{K: "pi", N: uint64(i + 1)})
+			}
+			es = append(es, Ev{K: "e"}, Ev{K: "rec", Data: []byte("r")})
+			for i := 0; i < have; i++ {
+				es = append(es, Ev{K: "null"})
+			}
+			es = append(es, Ev{K: "e"}, Ev{K: "ed"})
+			rej, _ := c.addRulesCase(rc, es)
+			c.Count(evsString(es), true)
+			c.Dist("record-arity/directed")
+			c.c10Judge(es, rej)
+		}
+	}
+	optR := DefaultGenOpts()
+	optR.Records = true
+	gr := NewEvGen(c.Rng, optR)
+	for i := 0; i < c.Pick(150, 2500); i++ {
+		es := gr.Document()
+		for _, m := range recordArityMutants(es, c.Rng) {
+			rej, _ := c.addRulesCase(rc, m)
+			c.Count(evsString(m), len(m) > 3)
+			c.Dist(fmt.Sprintf("record-arity/mutant/accepted=%v", rej < 0))
+			c.c10Judge(m, rej)
+		}
+	}
 	optN := DefaultGenOpts()
 	optN.NestedMarkers = true
 	gn := NewEvGen(c.Rng, optN)
@@ -167,4 +199,44 @@ func runC10(c *Ctx) {
 	for k, v := range g.Kinds {
 		c.Rep.Distribution["kind:"+k] = v
 	}
+}
+
+// recordArityMutants: for one record instance of the document (chosen at random), the document with
+// one more value before the record's end, and the one with the record's last value (if it is a
+// single event) removed.
+func recordArityMutants(es []Ev, r *rand.Rand) [][]Ev {
+	var recs []int
+	for i, e := range es {
+		if e.K == "rec" {
+			recs = append(recs, i)
+		}
+	}
+	if len(recs) == 0 {
+		return nil
+	}
+	i := recs[r.Intn(len(recs))]
+	depth, j := 0, -1
+	for k := i; k < len(es) && j < 0; k++ {
+		switch es[k].K {
+		case "l", "m", "edge", "node", "rec", "rt":
+			depth++
+		case "e":
+			depth--
+			if depth == 0 {
+				j = k
+			}
+		}
+	}
+	if j < 0 {
+		return nil
+	}
+	more := append(append(append([]Ev{}, es[:j]...), Ev{K: "null"}), es[j:]...)
+	out := [][]Ev{more}
+	if j-1 > i {
+		switch es[j-1].K {
+		case "null", "b", "pi", "ni", "fl", "uid", "nan":
+			out = append(out, append(append([]Ev{}, es[:j-1]...), es[j:]...))
+		}
+	}
+	return out
 }
